@@ -313,7 +313,7 @@ def caseAcc (k : String) (ks : List Tree) (fn : String) (c : String × String ×
 
 /-- node `node k ks`: every comparison any covered function makes on it finds an acceptable part -/
 def accNode (k : String) (ks : List Tree) : Bool :=
-  (compiled.all fun e => !(okRegular e.1 && (domOf e.1).kinds == [k]) || (bodyOf e.2.2).all (cstepAcc k ks))
+  (compiled.all fun e => !((domOf e.1).kinds == [k] && okRegular e.1) || (bodyOf e.2.2).all (cstepAcc k ks))
   && (typeSwitches.all fun e => e.2.all (caseAcc k ks e.1))
   && specialSites.all (siteAcc k ks)
 
